@@ -396,8 +396,9 @@ def finish(pid, tier, seed, t0, spec, proofs, stats, pure_stats, violations, out
     cov["known_findings_seen"] = list(known_hits)
     ev = {"property_id": pid, "tier": tier, "seed": seed, "level": "proof", "coverage": cov,
           "assumptions": spec["assumptions"], "wall_s": round(wall, 1), "violations": len(violations)}
-    os.makedirs(os.path.join(ROOT, "evidence"), exist_ok=True)
-    with open(os.path.join(ROOT, "evidence", pid + ".json"), "w") as f:
+    evdir = os.environ.get("MW_EVIDENCE_DIR") or os.path.join(ROOT, "evidence")   # tools/coverage.py redirects its runs
+    os.makedirs(evdir, exist_ok=True)
+    with open(os.path.join(evdir, pid + ".json"), "w") as f:
         json.dump(ev, f, indent=1, default=str)
     for l in out_lines:
         print(l)
